@@ -44,7 +44,7 @@ ASSUME = ["index entries below -len(x) are not generated (only 'beyond the end' 
           "monotonic/sorting: an index tuple with an out-of-range entry may raise IndexError (not documented); "
           "the empty index tuple is not generated",
           "discrete: a tie between two samples may go to either neighbour; integers/rounded: halves may go either way",
-          "statistics are compared with rel 1e-7 (the decorators' own almostEqual gate) plus 1e-9 x data scale",
+          "statistics are compared with rel 1e-7 (the decorators' own almostEqual gate) plus 1e-12 x data scale",
           "unique with float fill: a collision of a random float with an existing value has probability ~0",
           "values are moderate (|x| <= 1e4): overflow of int casts / 10**digits scaling is out of scope"]
 
@@ -367,7 +367,7 @@ def snap_cases(draw):
         ss = sorted(set(float(s) for s in samples))
         pool = ss + ss + [(a + b) / 2.0 for a, b in zip(ss[:-1], ss[1:])] + [ss[0] - 1.0, ss[-1] + 0.25] + SNAPV[:9]
     elif dec == 'integers':
-        case['ints'] = draw(st.sampled_from([True, True, False, 'float', 'int']))
+        case['ints_arg'] = draw(st.sampled_from([True, True, False, 'float', 'int']))
     else:
         case['digits'] = draw(st.sampled_from([None, 0, 1, 1, 2, 3, -1, -2]))
     case['x'] = draw(vecs(n, pool, -50, 50))
@@ -407,10 +407,11 @@ def run_snap(case, ctx):
         if not veq(fl(sarg), fl(samples)):
             ctx.label('mutates-samples-argument')
     elif dec == 'integers':
-        ints = {'float': float, 'int': int}.get(case['ints'], case['ints'])
-        want_int = case['ints'] in (True, 'int')
+        ia = case['ints_arg']
+        ints = {'float': float, 'int': int}.get(ia, ia) if isinstance(ia, str) else ia
+        want_int = ia is True or ia == 'int'
         d = C.integers(ints=ints, index=index)
-        ctx.label('ints:%s' % case['ints'])
+        ctx.label('ints:%s' % ia)
     elif dec == 'rounded':
         d = C.rounded(case['digits'], index=index)
     else:
@@ -429,7 +430,7 @@ def run_snap(case, ctx):
         xi = xs[p]; oi = o[p]
         base = lambda: dict(decorator=dec, pos=p, x=xi, got=oi, index=case['index'],
                             out_of_range_in_index=r['oor'], selected=p in r['sel'],
-                            params={k: case[k] for k in ('samples', 'ints', 'digits') if k in case})
+                            params={k: case[k] for k in ('samples', 'ints_arg', 'digits') if k in case})
         if p not in r['sel']:
             ctx.expect(same(oi, xi), 'C16.snap_unselected', base)
             continue
@@ -452,7 +453,7 @@ def run_snap(case, ctx):
             okt = out.dtype.kind in 'iu'
         else:
             okt = all(isinstance(v, (int, np.integer)) for v in out)
-        ctx.expect(okt, 'C16.snap_type', lambda: dict(decorator=dec, ints=case['ints'], got=repr(out)[:200]))
+        ctx.expect(okt, 'C16.snap_type', lambda: dict(decorator=dec, ints=case['ints_arg'], got=repr(out)[:200]))
     again = call(ctx, fn, out)
     ctx.expect(veq(fl(again), o), 'C16.snap_idem', lambda: dict(decorator=dec, once=o, twice=fl(again), x=xs))
     if not moved:
@@ -607,12 +608,13 @@ def order_cases(draw):
     ints = draw(st.integers(0, 9)) == 0
     case = dict(dec=draw(st.sampled_from(['monotonic', 'sorting'])), arr=draw(st.booleans()), ints=ints,
                 ascending=draw(st.booleans()), outer=draw(st.booleans()),
-                index=draw(index_specs(n, min_tuple=1)))
+                index=draw(index_specs(n, min_tuple=1, kinds=('none', 'int', 'neg', 'tuple', 'tuple', 'tuple', 'tuple',
+                                                               'tuple-oor', 'oor'))))
     if ints:
         x = draw(st.lists(st.integers(-3, 6), min_size=n, max_size=n))
     else:
         x = draw(vecs(n, ORDV, -20, 20))
-    shape = draw(st.sampled_from(['free', 'free', 'sorted', 'reversed']))
+    shape = draw(st.sampled_from(['free', 'free', 'free', 'free', 'sorted', 'reversed']))
     if shape != 'free':
         x = sorted(x, reverse=(shape == 'reversed'))
     case['x'] = x
@@ -905,10 +907,12 @@ def run_stats(case, ctx):
     before = _stat(dec, xs); got = _stat(dec, o)
     base = lambda: dict(decorator=dec, x=xs, got=o, target=target, statistic_before=before, statistic_after=got)
     ctx.expect(all(math.isfinite(v) for v in o), 'C16.stat_finite', base)
-    ctx.expect(close(got, target, 1e-7, 1e-9 * scale), 'C16.stat_reached', base)
+    ctx.expect(close(got, target, 1e-7, 1e-12 * scale), 'C16.stat_reached', base)
     if close(before, target, 1e-9, 1e-12 * scale):
+        # (the gate sums naively, so a statistic that is 0 only in exact arithmetic may still be 'imposed': compare
+        # with a rounding-level tolerance instead of bit equality)
         ctx.label('input-conforming')
-        ctx.expect(vclose(o, xs, 0.0, 0.0), 'C16.stat_conforming', base)
+        ctx.expect(vclose(o, xs, 1e-12, 1e-12 * mag), 'C16.stat_conforming', base)
     # documented invariants of the underlying impose_* (Notes sections)
     if dec == 'with_mean':
         ctx.expect(close(_spread(o), _spread(xs), 1e-9, 1e-9 * mag) and close(_var(o), _var(xs), 1e-9, 1e-9 * mag * mag),
@@ -917,8 +921,8 @@ def run_stats(case, ctx):
         ctx.expect(close(_mean(o), _mean(xs), 1e-9, 1e-9 * max(mag, math.sqrt(abs(target)) if dec == 'with_variance' else abs(target))),
                    'C16.stat_preserved', lambda: dict(base(), what=dec + ' keeps the mean'))
     again = call(ctx, fn, out)
-    ctx.expect(vclose(fl(again), o, 1e-7, 1e-9 * scale), 'C16.stat_idem', lambda: dict(base(), twice=fl(again)))
-    ctx.nontrivial(not close(before, target, 1e-7, 1e-9 * scale))
+    ctx.expect(vclose(fl(again), o, 1e-7, 1e-12 * max(mag, scale)), 'C16.stat_idem', lambda: dict(base(), twice=fl(again)))
+    ctx.nontrivial(not close(before, target, 1e-7, 1e-12 * scale))
 
 
 # =========================================================================== rewrite: masked / partial / synchronized / clipped / suppressed
@@ -1126,14 +1130,14 @@ def run_rewrite(case, ctx):
 
 # =========================================================================== tests
 TESTS = [
-    Test('bounds', run_bounds, strategy=lambda tier: bounds_cases(), examples={'quick': 6000, 'thorough': 200000}),
-    Test('snap', run_snap, strategy=lambda tier: snap_cases(), examples={'quick': 6000, 'thorough': 200000}),
-    Test('unique', run_unique, strategy=lambda tier: unique_cases(), examples={'quick': 4000, 'thorough': 120000}),
-    Test('order', run_order, strategy=lambda tier: order_cases(), examples={'quick': 5000, 'thorough': 150000}),
-    Test('at', run_at, strategy=lambda tier: at_cases(), examples={'quick': 4000, 'thorough': 120000}),
-    Test('as', run_as, strategy=lambda tier: as_cases(), examples={'quick': 5000, 'thorough': 150000}),
-    Test('stats', run_stats, strategy=lambda tier: stats_cases(), examples={'quick': 5000, 'thorough': 150000}),
-    Test('rewrite', run_rewrite, strategy=lambda tier: rewrite_cases(), examples={'quick': 6000, 'thorough': 200000}),
+    Test('bounds', run_bounds, strategy=lambda tier: bounds_cases(), examples={'quick': 4000, 'thorough': 200000}),
+    Test('snap', run_snap, strategy=lambda tier: snap_cases(), examples={'quick': 4000, 'thorough': 200000}),
+    Test('unique', run_unique, strategy=lambda tier: unique_cases(), examples={'quick': 2500, 'thorough': 120000}),
+    Test('order', run_order, strategy=lambda tier: order_cases(), examples={'quick': 3000, 'thorough': 150000}),
+    Test('at', run_at, strategy=lambda tier: at_cases(), examples={'quick': 2500, 'thorough': 120000}),
+    Test('as', run_as, strategy=lambda tier: as_cases(), examples={'quick': 3000, 'thorough': 150000}),
+    Test('stats', run_stats, strategy=lambda tier: stats_cases(), examples={'quick': 3000, 'thorough': 150000}),
+    Test('rewrite', run_rewrite, strategy=lambda tier: rewrite_cases(), examples={'quick': 4000, 'thorough': 200000}),
 ]
 
 
@@ -1149,6 +1153,11 @@ def _trunc_eq(got, x):
         return False
 
 
+def _int_arg(case):
+    ia = case.get('ints_arg')
+    return ia is True or ia == 'int'
+
+
 def k_f11a(case, sub, d):
     """an out-of-range entry in index= switches the whole selection off (discrete/integers/rounded/precision)"""
     if case.get('dec') not in ('discrete', 'integers', 'rounded', 'precision'):
@@ -1156,12 +1165,12 @@ def k_f11a(case, sub, d):
     if sub not in ('C16.snap_member', 'C16.snap_nearest') or not _d(d, 'out_of_range_in_index') or not _d(d, 'selected'):
         return False
     got, x = _d(d, 'got'), _d(d, 'x')
-    return got == x or (case.get('dec') == 'integers' and case.get('ints') in (True, 'int') and _trunc_eq(got, x))
+    return got == x or (case.get('dec') == 'integers' and _int_arg(case) and _trunc_eq(got, x))
 
 
 def k_f11b(case, sub, d):
     """integers(ints=True, index=...) casts the whole vector: unselected entries are truncated"""
-    return (case.get('dec') == 'integers' and case.get('ints') in (True, 'int') and case.get('index') is not None
+    return (case.get('dec') == 'integers' and _int_arg(case) and case.get('index') is not None
             and sub == 'C16.snap_unselected' and _trunc_eq(_d(d, 'got'), _d(d, 'x')))
 
 
@@ -1180,8 +1189,12 @@ def k_bounds_nearest(case, sub, d):
 
 def k_bounds_int(case, sub, d):
     """int-typed input: the clipped/random value is written into an int array and truncated"""
+    if not case.get('ints') or 'form' not in case:
+        return False
+    if sub == 'C16.bounds_idem':            # the truncated value is outside again, so the second pass moves it again
+        return all(float(v).is_integer() for v in _d(d, 'once', []))
     got = _d(d, 'got')
-    return (bool(case.get('ints')) and sub in ('C16.bounds_clipped', 'C16.bounds_nearest', 'C16.bounds_member')
+    return (sub in ('C16.bounds_clipped', 'C16.bounds_nearest', 'C16.bounds_member')
             and got is not None and float(got).is_integer())
 
 
